@@ -766,6 +766,45 @@ func (c *Ctx) SessionLifecycle(prop string) {
 			}
 		}
 		c.R.Floor(rule4, "expiry deletions in the lookup", ndel, 1)
+		// the age that is tested is the age since the generation was created: the field read by the expiry test is written only
+		// where a session object is built (a store into an object allocated in the same function), never on a later message
+		started := map[string]bool{}
+		for _, b := range F.Blocks {
+			for _, ins := range b.Instrs {
+				call, ok := ins.(*ssa.Call)
+				if !ok || call.Call.StaticCallee() == nil || call.Call.StaticCallee().String() != "time.Since" || len(call.Call.Args) != 1 {
+					continue
+				}
+				if owner, f, _ := an.FieldOf(call.Call.Args[0]); owner != nil && namedOf(owner) == p.Session {
+					started[f] = true
+				}
+			}
+		}
+		nst := 0
+		for _, fn := range c.P.ModuleFuncs() {
+			if prog.PkgPathOf(fn) != pkg || fn.Blocks == nil {
+				continue
+			}
+			for _, b := range fn.Blocks {
+				for _, ins := range b.Instrs {
+					st, ok := ins.(*ssa.Store)
+					if !ok {
+						continue
+					}
+					fa, ok := st.Addr.(*ssa.FieldAddr)
+					if !ok || namedOf(fa.X.Type()) != p.Session || !started[fieldNameOf(fa)] {
+						continue
+					}
+					nst++
+					if _, fresh := fa.X.(*ssa.Alloc); fresh {
+						c.R.OK(rule4, Fn(fn)+":started", c.Pos(st), "the start time is set where the generation is created")
+					} else {
+						c.R.Fail(rule4, Fn(fn)+":started", c.Pos(st), "the start time of an existing generation is rewritten: its lifetime is no longer bounded by the configured timeout (every message can extend it), a timed-out generation keeps accepting messages and blocks a new prepare", "the field the expiry test reads is written only when the generation is created", nil)
+					}
+				}
+			}
+		}
+		c.R.Floor(rule4, "stores of the generation's start time", nst, 1)
 	}
 	// ---- O5 single-table: who writes
 	rule5 := "C17.O5 single-table"
